@@ -734,7 +734,79 @@ def c11(res, tier, deadline):
             res.harness_errors.append("candidate did not reproduce: %s :: %s" % (c["case"], c["detail"][:200]))
 
 
+def gen2_stage(res, stage, tier):
+    """compile-time halves of C12 (stage='OFFSETS') and C13 (stage='TABLES'):
+    stage 1 writes the generated text, stage 2 is the same program compiled WITH
+    it; outputs (every call of the domain) must be identical. A stage-2 compile
+    failure is a violation: compilability of the generated text is the property."""
+    import tempfile
+    combos = []
+    compilers = ["g++", "clang++"]
+    for dom in range(4):
+        for checked in (0, 1):
+            for cxx in compilers:
+                combos.append((dom, checked, cxx))
+
+    def one(combo):
+        dom, checked, cxx = combo
+        d = tempfile.mkdtemp(prefix="gen2_", dir=C.build_dir(_e5_key()))
+        flags = ["-std=c++17", "-O0", "-w", "-DDOMAIN=%d" % dom, "-I" + C.INCLUDE] + (["-DCHECKED"] if checked else [])
+        src = os.path.join(E5DIR, "gen2.cpp")
+        desc = "domain %d policy=%s compiler=%s stage2=%s" % (dom, "debug" if checked else "release", cxx, stage)
+        try:
+            rc, so, se = C.run_cmd([cxx] + flags + [src, "-o", os.path.join(d, "s1")], timeout=1800)
+            if rc:
+                return desc, "harness", "stage 1 does not compile: " + se[-800:]
+            rc, out1, se = C.run_cmd([os.path.join(d, "s1"), d], timeout=300)
+            if rc:
+                return desc, "viol", "stage 1 (update + generator) ended with %s: %s" % (small.sig_name(rc), se[-300:])
+            rc, so, se = C.run_cmd([cxx] + flags + ["-DSTAGE2_" + stage, "-I" + d, src, "-o", os.path.join(d, "s2")], timeout=1800)
+            if rc:
+                return desc, "viol", "program does not compile with the generated text: " + se[-600:]
+            rc, out2, se = C.run_cmd([os.path.join(d, "s2")], timeout=300)
+            if rc:
+                return desc, "viol", "program compiled with the generated text ended with %s: %s" % (small.sig_name(rc), se[-300:])
+            if out1 != out2:
+                return desc, "viol", "calls differ: after update [%s] with generated text [%s]" % (out1.strip()[:300], out2.strip()[:300])
+            return desc, "ok", str(len(out1.split()))
+        finally:
+            import shutil
+            shutil.rmtree(d, ignore_errors=True)
+
+    ok = 0
+    with cf.ThreadPoolExecutor(max_workers=C.NCPU) as ex:
+        for desc, verdict, detail in ex.map(one, combos):
+            if verdict == "ok":
+                ok += 1
+                res.states += 1
+                res.traces += 1
+                res.nontrivial += 1
+                res.transitions += int(detail)
+            elif verdict == "harness":
+                res.harness_errors.append(desc + ": " + detail)
+            else:
+                c = {"case": desc, "kind": "generated_text", "detail": detail, "engine": "E5GEN2", "stage": stage}
+                k = C.match_known(C.load_known(), res.prop, c)
+                if k is not None:
+                    res.known_hits.setdefault(k["id"], (k, c))
+                else:
+                    res.confirmed.append(c)
+    res.bounds.append({"run": "two-stage programs (stage2=%s)" % stage, "complete": True,
+                       "counters": {"pipelines": len(combos), "identical": ok}})
+    res.samples.append({"two_stage": "4 real domains x {release, debug} x {g++, clang++}: update+generate, recompile with the generated %s, compare every call" % stage.lower()})
+
+
 def replay(prop, cand, path):
+    if cand.get("engine") == "E5GEN2":
+        res = C.Result(prop, "quick")
+        gen2_stage(res, cand["stage"], "quick")
+        for c in res.confirmed:
+            print("CAND", c["case"], c["detail"][:300])
+        if any(c["case"] == cand["case"] for c in res.confirmed):
+            print("VIOLATION property=%s replay=%s" % (prop, path))
+            return 1
+        print("not reproduced: property holds on these programs")
+        return 0
     if cand.get("engine") == "E5GEN":
         # regenerate and rebuild the family member, run it again
         res = C.Result(prop, "quick")
